@@ -66,8 +66,8 @@ def cases(tier, seed):
         k = cnt.get(np_, 0); cnt[np_] = k + 1
         out.append("p%d.%d %s %s" % (np_, k, op, " ".join(str(p) for p in parts)))
 
-    def system(np_, nlo=8, nhi=48, empty_bias=0.2):
-        n = r.randint(nlo, nhi)
+    def system(np_, nlo=8, nhi=None, empty_bias=0.2):
+        n = r.randint(nlo, nhi or (48 if quick else 110))
         M = gen.dyadic_spd(r, n)
         p = gen.rcomposition(r, n, np_, empty_bias=empty_bias)
         f = [F(r.randint(-4, 4), r.choice([1, 2])) for _ in range(n)]
@@ -84,7 +84,9 @@ def cases(tier, seed):
                     pre + "coarse_enough=%d" % r.choice([1, 2, 4]), pre + "direct_coarse=%s" % r.choice(["true", "true", "false"]),
                     pre + "repart.enable=%s" % ("true" if repart else "false"), pre + "repart.shrink_ratio=%d" % r.choice([2, 2, 8]),
                     pre + "npre=%d" % r.choice([1, 1, 2]), pre + "npost=%d" % r.choice([1, 1, 2])]
-            if coarsening == "aggregation": cfg += [pre + "coarsening.over_interp=%d" % oi]
+            if coarsening == "aggregation":
+                cfg += [pre + "coarsening.over_interp=%d" % oi,
+                        pre + "coarsening.aggr.eps_strong=%s" % r.choice(["0.25", "0.125", "0.5", "0"])]
             elif r.random() < 0.3: cfg += [pre + "coarsening.estimate_spectral_radius=true"]
         else:
             cfg += [pre + "type=" + relax]
@@ -93,17 +95,19 @@ def cases(tier, seed):
         add(np_, "solve", " ".join(cfg), "--", fmt_crs(n, n, M), fmt_ivec(p), fmt_vec(f), fmt_vec(x0), 2)
 
     ranks = [1, 2, 3, 4] if quick else [1, 2, 3, 4, 5, 6, 8]
+    reps = 1 if quick else 3
     for np_ in ranks:
         for c in COARSENINGS:
             for rl in RELAX:
-                svs = SOLVERS if not quick else r.sample(SOLVERS, 3) + ["cg"]
+                svs = SOLVERS if not quick else r.sample(SOLVERS, 4) + ["cg"]
                 for sv in svs:
-                    solve_case(np_, "amg", c, rl, sv, repart=(r.random() < 0.5))
+                    for _ in range(reps):
+                        solve_case(np_, "amg", c, rl, sv, repart=(r.random() < 0.5))
         for rl in RELAX:
-            for sv in (SOLVERS if not quick else r.sample(SOLVERS, 2)):
+            for sv in (SOLVERS if not quick else r.sample(SOLVERS, 3)):
                 solve_case(np_, "relaxation", None, rl, sv, False)
-        for it in range(12 if quick else 60):
-            n, M, p, f = system(np_, 1, 40, empty_bias=0.35)
+        for it in range(20 if quick else 100):
+            n, M, p, f = system(np_, 1, 40 if quick else 120, empty_bias=0.35)
             add(np_, "direct", fmt_crs(n, n, M), fmt_ivec(p), fmt_vec(f))
     return out
 
@@ -208,6 +212,9 @@ def check_solve(line, out, np_, olines, fails, ctx):
         if coarsening == "aggregation":
             olines.append(("aggregates partition the unknowns (no empty aggregate, one unit entry per aggregated row)",
                            "%s.pa o.partition %s" % (base, tok["P"])))
+            eps = F(c.kv.get("precond.coarsening.aggr.eps_strong", "2/25"))
+            olines.append(("every non-isolated unknown is aggregated, every isolated one is left out",
+                           "%s.is o.isolated %s %s %s" % (base, tok["A"], tok["P"], fmt_q(eps * eps))))
         if "C" in L:
             if coarsening == "aggregation":
                 sc = F(1) / F(c.kv.get("precond.coarsening.over_interp", "3/2")); tol = F(0)
